@@ -315,6 +315,13 @@ func runCase(c *vh.Ctx, in *input, origin string) {
 	if blk := extBlock(h); !bytes.Equal(blk, cat) && len(cat) <= 65535 {
 		viol("ext-order", "extension block differs from the concatenated extension encodings")
 	}
+	// 2b. every extension's own encoding: type, length, and the body grammar of its type with the
+	//     configured values (checked with independent mini-parsers, whatever the rest of the hello is)
+	for i, x := range fp.Extensions {
+		if why := malformed(in.Exts[i], x.Marshal()); why != "" {
+			viol("ext-malformed-"+in.Exts[i].T, fmt.Sprintf("extension %d (%s): %s: %x", i, in.Exts[i].T, why, clip(x.Marshal())))
+		}
+	}
 	// 3. own parser
 	ok := readable(in)
 	if ok {
@@ -388,6 +395,92 @@ func runCase(c *vh.Ctx, in *input, origin string) {
 	}
 }
 
+var extType = map[string]int{"sni": 0, "alpn": 16, "reneg": 0xff01, "ems": 23, "status": 5, "sct": 18, "curves": 10,
+	"points": 11, "ticket": 35, "sigalgs": 13}
+
+// malformed: "" when raw is the well-formed encoding of e (skipped when a length cannot fit its field)
+func malformed(e extIn, raw []byte) string {
+	if e.T == "null" || (e.T == "sni" && len(e.Names) == 0) {
+		if len(raw) != 0 {
+			return "something is sent for an empty extension"
+		}
+		return ""
+	}
+	if len(raw) < 4 {
+		return "shorter than a header"
+	}
+	if len(raw)-4 > 65535 {
+		return "" // does not fit; outside the domain
+	}
+	if int(raw[0])<<8|int(raw[1]) != extType[e.T] {
+		return "wrong extension type"
+	}
+	if int(raw[2])<<8|int(raw[3]) != len(raw)-4 {
+		return "length field is not the body length"
+	}
+	b := raw[4:]
+	u16 := func(b []byte) int { return int(b[0])<<8 | int(b[1]) }
+	switch e.T {
+	case "sni", "alpn":
+		if len(b) < 2 || u16(b) != len(b)-2 {
+			return "list length is not the length of the rest"
+		}
+		b = b[2:]
+		for _, n := range e.Names {
+			if e.T == "sni" {
+				if len(b) < 3 || b[0] != 0 || u16(b[1:]) != len(n) || len(b) < 3+len(n) || !bytes.Equal(b[3:3+len(n)], n) {
+					return "entry is not name_type 0, uint16 length, name"
+				}
+				b = b[3+len(n):]
+			} else {
+				if len(n) > 255 {
+					return ""
+				}
+				if len(b) < 1 || int(b[0]) != len(n) || len(b) < 1+len(n) || !bytes.Equal(b[1:1+len(n)], n) {
+					return "entry is not uint8 length, protocol"
+				}
+				b = b[1+len(n):]
+			}
+		}
+		if len(b) != 0 {
+			return "bytes after the last entry"
+		}
+	case "curves", "sigalgs":
+		if len(b) != 2+2*len(e.U16) || u16(b) != 2*len(e.U16) {
+			return "list length"
+		}
+		for i, x := range e.U16 {
+			if u16(b[2+2*i:]) != int(x) {
+				return "element differs from the configured value"
+			}
+		}
+	case "points":
+		if len(e.B) > 255 {
+			return ""
+		}
+		if len(b) != 1+len(e.B) || int(b[0]) != len(e.B) || !bytes.Equal(b[1:], e.B) {
+			return "not uint8 length + formats"
+		}
+	case "ticket":
+		if !bytes.Equal(b, e.B) {
+			return "body is not the ticket"
+		}
+	case "reneg":
+		if !bytes.Equal(b, []byte{0}) {
+			return "not an empty renegotiated_connection"
+		}
+	case "status":
+		if !bytes.Equal(b, []byte{1, 0, 0, 0, 0}) {
+			return "not an OCSP status request without responders / extensions"
+		}
+	case "ems", "sct":
+		if len(b) != 0 {
+			return "body not empty"
+		}
+	}
+	return ""
+}
+
 func hasSCSV(s []uint16) bool { return contains(s, 0x00ff) }
 
 func clip(b []byte) []byte {
@@ -407,7 +500,8 @@ func firstFlight(in *input) ([]byte, error) {
 	cl := tls.Client(c1, cfg)
 	errc := make(chan error, 1)
 	go func() { err := cl.Handshake(); errc <- err; c1.Close() }()
-	c2.SetReadDeadline(time.Now().Add(2 * time.Second))
+	// no deadline: the client either writes its first flight or returns an error (then c1 is closed and the
+	// read below ends); a time limit would only turn a slow machine into a false alarm
 	var msg []byte
 	need := -1
 	for need < 0 || len(msg) < need {
@@ -417,7 +511,7 @@ func firstFlight(in *input) ([]byte, error) {
 			select {
 			case e := <-errc:
 				return nil, e
-			case <-time.After(time.Second):
+			case <-time.After(30 * time.Second):
 				return nil, err
 			}
 		}
@@ -437,7 +531,7 @@ func firstFlight(in *input) ([]byte, error) {
 	c1.Close()
 	select {
 	case <-errc:
-	case <-time.After(2 * time.Second):
+	case <-time.After(30 * time.Second):
 	}
 	return msg[:need], nil
 }
@@ -597,6 +691,9 @@ func gen(c *vh.Ctx) {
 			in.Random, in.InsertTS = c.Bytes(31), true
 		case 3:
 			in.Random = c.Bytes(33)
+			if i/8 > 0 {
+				in.Random, in.InsertTS = c.Bytes(32), true // a configured random wins over the timestamp
+			}
 		case 4:
 			in.SID = c.Bytes([]int{255, 256, 1}[i/8])
 		case 5:
